@@ -1120,11 +1120,17 @@ func checkClassPresence(c *Ctx, rule string) {
 		u, ok := v.(*ssa.UnOp)
 		return ok && u.Op == token.MUL && u.X == ssa.Value(table)
 	}
+	// a lookup helper: the key of the table access is one of the function's own parameters (a function that reads a fixed
+	// entry such as the universe "ASCII" and returns a flag of its own is something else)
 	readsTable := func(f *ssa.Function) bool {
 		for _, b := range f.Blocks {
 			for _, in := range b.Instrs {
 				if lk, ok := in.(*ssa.Lookup); ok && isTableLoad(lk.X) {
-					return true
+					for _, r := range rootsOf(f, lk.Index, nil) {
+						if _, isParam := r.(*ssa.Parameter); isParam {
+							return true
+						}
+					}
 				}
 			}
 		}
